@@ -134,3 +134,63 @@ Definition track_ok_b (xs yielded : list Z) (final_completed : Q) : bool :=
 (* ---------------------------------------------------------------- concurrent part *)
 Definition no_lost_update_b (initial : Z) (advs : list Z) (final : Z) : bool :=
   (final =? initial + sumZ advs)%Z.
+
+(* ---------------------------------------------------------------- float amounts *)
+(* With float amounts every `+=` rounds.  The accounting identity then holds in this sense: each
+   observed value is the correctly rounded sum of the previous observed value and the amount
+   (relative error at most u = 2^-53 for binary64 round-to-nearest), an explicit set is exact; the
+   theorem float_accounting (proofs) turns these local conditions into the bound on the distance to
+   "last set value + sum of advances since".  Checked on the real object after every operation. *)
+Inductive fwr : Type := FSet (v : Q) | FAdd (a : Q).
+Definition rounded_sum_b (u prev a next : Q) : bool := Qle_bool (Qabs (next - (prev + a))) (u * Qabs (prev + a)).
+Definition fwr_ok_b (u prev : Q) (w : fwr) (next : Q) : bool :=
+  match w with FSet v => Qeq_bool next v | FAdd a => rounded_sum_b u prev a next end.
+(* a chain of writes and the value observed after each *)
+Fixpoint chain_ok_b (u prev : Q) (l : list (fwr * Q)) : bool :=
+  match l with
+  | [] => true
+  | (w, next) :: r => fwr_ok_b u prev w next && chain_ok_b u next r
+  end.
+(* exact reference and the accumulated error allowance *)
+Fixpoint chain_exact (c : Q) (l : list (fwr * Q)) : Q :=
+  match l with [] => c | (FSet v, _) :: r => chain_exact v r | (FAdd a, _) :: r => chain_exact (c + a) r end.
+Fixpoint chain_last (c : Q) (l : list (fwr * Q)) : Q :=
+  match l with [] => c | (_, next) :: r => chain_last next r end.
+(* error allowance: u * |exact input of the rounding| for every += (an explicit set in between makes the
+   value exact again, so this over-approximates after a set) *)
+Fixpoint adds_bound (u prev : Q) (l : list (fwr * Q)) : Q :=
+  match l with
+  | [] => 0
+  | (FSet _, next) :: r => adds_bound u next r
+  | (FAdd a, next) :: r => u * Qabs (prev + a) + adds_bound u next r
+  end.
+
+(* what an operation writes to the completed count of task id *)
+Definition fwrite_of (o : op) (id : Z) : option fwr :=
+  match o with
+  | Advance id' a => if (id' =? id)%Z then Some (FAdd a) else None
+  | Update id' _ (Some v) _ _ => if (id' =? id)%Z then Some (FSet v) else None
+  | Update id' _ None (Some a) _ => if (id' =? id)%Z then Some (FAdd a) else None
+  | Reset id' _ _ v _ => if (id' =? id)%Z then Some (FSet v) else None
+  | _ => None
+  end.
+Fixpoint find_c (id : Z) (l : list (Z * Q)) : option Q :=
+  match l with [] => None | (i, c) :: r => if (i =? id)%Z then Some c else find_c id r end.
+(* observations: (task id, completed) for every task, after every operation *)
+Definition fobs_ok_b (u : Q) (o : op) (prev : list (Z * Q)) (x : Z * Q) : bool :=
+  match find_c (fst x) prev with
+  | None => match o with AddTask _ _ c _ => Qeq_bool (snd x) c | _ => false end
+  | Some p => match fwrite_of o (fst x) with
+              | None => Qeq_bool (snd x) p
+              | Some w => fwr_ok_b u p w (snd x)
+              end
+  end.
+Fixpoint float_accounting_from (u : Q) (prev : list (Z * Q)) (h : list hop) (obss : list (list (Z * Q))) : bool :=
+  match h, obss with
+  | [], [] => true
+  | (o, _, _) :: h', cur :: obss' => forallb (fobs_ok_b u o prev) cur && float_accounting_from u cur h' obss'
+  | _, _ => false
+  end.
+Definition float_accounting_ok_b (u : Q) (h : list hop) (obss : list (list (Z * Q))) : bool :=
+  float_accounting_from u [] h obss.
+Definition u_binary64 : Q := 1 # 9007199254740992.   (* 2^-53 *)
